@@ -8,7 +8,7 @@ from fractions import Fraction
 import vlib, gen, strgen
 import codes_common as CC
 
-THEOREMS = ['C12_dispatch_total', 'C12_error_class', 'C12_multi_range', 'natStr_roundtrip_10000', 'C12_multi_idempotent',
+THEOREMS = ['C12_dispatch_total', 'C12_error_class', 'C12_multi_range', 'C12_int_str_roundtrip', 'C12_multi_idempotent', 'C12_field_idempotent',
             'C12_field_format', 'C12_field_window', 'timedGuards_time', 'C12_timed_fields_below_60', 'timedCore_time']
 
 class EK(Exception):
